@@ -25,15 +25,15 @@ Theorem C05_writer_layout : forall compress decompress, codec_ok compress decomp
   forall e s n fuel, (n <= fuel)%nat -> forall sync, length sync = 16%nat ->
   forall sync_interval meta ops,
   len (submitted ops) < 2 ^ 63 -> Forall (op_ok e s n) ops ->
-  small_run compress sync sync_interval (wcreate sync meta) ops ->
+  small_run compress sync (wcreate sync meta sync_interval) ops ->
   exists bls pend, Forall (good_blk compress e s fuel) bls /\
-    out (run compress sync sync_interval (wcreate sync meta) ops)
+    out (run compress sync (wcreate sync meta sync_interval) ops)
       = header_bytes meta sync ++ flat_map (blk_bytes compress sync) bls /\
     submitted ops = flat_map brecs bls ++ pend.
 Proof.
   intros compress decompress Hc e s n fuel Hf sync Hs si meta ops Hl Hok Hsm.
-  destruct (inv_run compress decompress Hc e s n fuel Hf sync Hs si meta ops _ [] Hl Hok Hsm
-              (inv_create compress e s n fuel sync meta)) as [(bls & pend & H1 & H2 & _ & _ & _ & H6) _].
+  destruct (inv_run compress decompress Hc e s n fuel Hf sync Hs meta ops _ [] Hl Hok Hsm
+              (inv_create compress e s n fuel sync meta si)) as [(bls & pend & H1 & H2 & _ & _ & _ & H6) _].
   exists bls, pend. repeat split; assumption.
 Qed.
 Print Assumptions C05_writer_layout.
